@@ -453,3 +453,24 @@ def decodeChain (dec : List Byte → Option (List Byte × List Byte)) : Nat → 
       | some (plain, rest) => (decodeChain dec f rest).map (plain :: ·)
 
 end KV.FilePiece
+
+/-! ### LineIterator (file_piece.hh:33-59): `for (StringPiece l : FilePiece(...))` -/
+namespace KV.FilePiece
+
+/-- `LineIterator::operator++` until `ReadLineOrEOF` returns false (at most `fuel` lines) -/
+def lineIter (env : Env) (G : NumKind → Grammar) (d : Byte) (strip : Bool) : Nat → St → List (List Byte)
+  | 0, _ => []
+  | f + 1, st =>
+    match runOp env G (.readLineOrEOF d strip) st with
+    | (.bytes b, st') => b :: lineIter env G d strip f st'
+    | _ => []
+
+/-- the lines of a byte string, by the spec -/
+def specLines (G : NumKind → Grammar) (d : Byte) (strip : Bool) : Nat → List Byte → List (List Byte)
+  | 0, _ => []
+  | f + 1, rest =>
+    match specOp G (.readLineOrEOF d strip) rest with
+    | (.bytes b, n) => b :: specLines G d strip f (rest.drop n)
+    | _ => []
+
+end KV.FilePiece
